@@ -275,6 +275,46 @@ def rewrite_body(S, b0, b1, opts, log):
                 consumed_until = c + 1
                 i += 1
                 continue
+        # ---------------- R13: std idioms routed through ext:: adapters ---------------------
+        if opts.get("r13") and t.kind == "punct" and t.text == "." and i + 2 <= b1 and toks[i + 1].kind == "ident" \
+                and toks[i + 1].text in ("extend", "drain") and toks[i + 2].text == "(":
+            c = match_close(toks, i + 2)
+            a = i - 1
+            while a > b0 and toks[a - 1].text not in (";", "{", "}", "=>"):
+                a -= 1
+            lv = text_of(src, toks, a, i)
+            arg = text_of(src, toks, i + 3, c)
+            ln = line_of(src, t.start)
+            if toks[i + 1].text == "extend" and toks[i + 3].text == "&" and toks[c - 1].text == "]":
+                ed.add(toks[a].start, toks[c].end, f"ext::vec_extend_slice(&mut {lv}, {arg})", "R13",
+                       f"{S.rel}:{ln} {lv}.extend(&slice) -> ext::vec_extend_slice")
+                consumed_until = c
+                i += 1
+                continue
+            if toks[i + 1].text == "drain" and toks[i + 3].text == "..":
+                n = text_of(src, toks, i + 4, c)
+                ed.add(toks[a].start, toks[c].end, f"ext::vec_drain_prefix(&mut {lv}, {n})", "R13",
+                       f"{S.rel}:{ln} {lv}.drain(..n) -> ext::vec_drain_prefix")
+                consumed_until = c
+                i += 1
+                continue
+        if opts.get("r13") and t.kind == "punct" and t.text == "&" and i + 1 <= b1 and toks[i + 1].text == "mut":
+            # `&mut EXPR[..]`  ->  EXPR.as_mut_slice()
+            j = i + 2
+            while j <= b1 and (toks[j].kind == "ident" or toks[j].text == "."):
+                j += 1
+            if j + 2 <= b1 and toks[j].text == "[" and toks[j + 1].text == ".." and toks[j + 2].text == "]":
+                ex = text_of(src, toks, i + 2, j)
+                ln = line_of(src, t.start)
+                ed.add(t.start, toks[j + 2].end, f"{ex}.as_mut_slice()", "R13", f"{S.rel}:{ln} &mut {ex}[..] -> as_mut_slice()")
+                consumed_until = j + 2
+                i += 1
+                continue
+        # ---------------- R14: `mut self` receiver -> local rebinding ---------------------------
+        if opts.get("r14") and t.kind == "ident" and t.text == "self" and i > b0:
+            ed.add(t.start, t.end, "this", "R14", f"{S.rel}:{line_of(src, t.start)} self -> this")
+            i += 1
+            continue
         # ---------------- R7: `a |= b;` on bool ---------------------------------------------
         if t.kind == "punct" and t.text == "|=":
             # lvalue: tokens back to previous `;` `{` `}`
@@ -354,6 +394,8 @@ def rewrite_body(S, b0, b1, opts, log):
         else:
             ed.add(toks[ob].start, toks[ob].start, f"\n{inv}\n", "R4", f"{S.rel}:{ln} loop invariant inserted")
     text = ed.apply(src, toks[b0].start, toks[b1].end)
+    if opts.get("r14"):
+        text = "{ let mut this = self;" + text[1:]
     for (s, e, _, rule, note) in sorted(ed.e):
         log.append({"rule": rule, "note": note})
     if opts.get("slice"):
@@ -415,6 +457,10 @@ def emit_fn(root, d, log_all):
     end_k = where if where is not None else len(sig_toks)
     head_end = arrow if arrow is not None else end_k
     head = src[sig_toks[0].start:sig_toks[head_end - 1].end]
+    if d.get("r14"):
+        if not re.search(r"\(\s*mut\s+self\b", head):
+            raise ExtractError("R14: receiver is not `mut self`")
+        head = re.sub(r"\(\s*mut\s+self\b", "(self", head, count=1)
     if d.get("rename"):
         head = re.sub(r"\bfn\s+" + re.escape(d["name"]) + r"\b", "fn " + d["rename"], head, count=1)
     ret = ""
@@ -432,6 +478,15 @@ def emit_fn(root, d, log_all):
     body = rewrite_body(S, b0, b1, d, log)
     attrs = "".join(a + "\n" for a in d.get("attrs", []))
     spec = d.get("spec", "")
+    for old, new in d.get("hsubst", []):
+        full = head + ret
+        if full.count(old) != 1:
+            raise ExtractError(f"lost anchor: hsubst `{old}` matches {full.count(old)} times in signature")
+        if old in ret:
+            ret = ret.replace(old, new)
+        else:
+            head = head.replace(old, new)
+        log.append({"rule": "R-site", "note": f"signature: `{old}` -> `{new}`"})
     if d.get("sig"):
         # R10: a slice of a function gets the signature written in the template
         head, ret, wh = d["sig"], "", ""
@@ -598,6 +653,9 @@ def parse_template(path):
                 cur = {"kind": "fn", "file": parts[0], "impl": parts[1], "name": parts[2], "attrs": [],
                        "loops": {}, "subst": [], "f64": [], "spec": "", "tline": i + 1}
                 mode = None
+            elif cmd.startswith("const "):
+                parts = [p.strip() for p in cmd[6:].split(" :: ")]
+                out.append(("const", {"kind": "const", "file": parts[0], "name": parts[1]}))
             elif cmd.startswith("struct ") or cmd.startswith("enum ") or cmd.startswith("type "):
                 parts = [p.strip() for p in cmd.split(" ", 1)[1].split(" :: ")]
                 dd = {"kind": "type", "file": parts[0], "name": parts[1]}
@@ -615,12 +673,19 @@ def parse_template(path):
                 cur["attrs"].append(cmd[5:].strip())
             elif cmd.startswith("id "):
                 cur["emit_id"] = cmd[3:].strip()
+            elif cmd in ("r13", "r14"):
+                cur[cmd] = True
             elif cmd == "nopub":
                 cur["nopub"] = True
             elif cmd.startswith("rename "):
                 cur["rename"] = cmd[7:].strip()
             elif cmd.startswith("f64 "):
                 cur["f64"].append(cmd[4:].strip())
+            elif cmd.startswith("hsubst "):
+                m = re.match(r"hsubst\s+<<(.*?)>>\s*==>\s*<<(.*)>>\s*$", cmd)
+                if not m:
+                    raise ExtractError(f"{path}:{i+1}: bad hsubst")
+                cur.setdefault("hsubst", []).append((m.group(1), m.group(2)))
             elif cmd.startswith("subst "):
                 m = re.match(r"subst\s+<<(.*?)>>\s*==>\s*<<(.*)>>\s*$", cmd)
                 if not m:
@@ -675,6 +740,17 @@ def run(template, root, out_path, meta_path):
     for kind, v in items:
         if kind == "text":
             out_lines.append(v)
+            continue
+        if kind == "const":
+            S = Source.get(root, v["file"])
+            m = re.search(r"^[ \t]*(?:pub(?:\([a-z]+\))?\s+)?const\s+" + re.escape(v["name"]) + r"\s*:[^;]*;", S.src, re.M)
+            if not m:
+                raise ExtractError(f"lost anchor: const {v['name']} in {v['file']}")
+            ctext = re.sub(r"^[ \t]*(?:pub(?:\([a-z]+\))?\s+)?const", "pub const", m.group(0))
+            start = len(out_lines) + 1
+            out_lines.extend(ctext.split("\n"))
+            metas.append({"id": v["name"], "file": v["file"], "kind": "const", "src_lines": [line_of(S.src, m.start())] * 2,
+                          "out_lines": [start, len(out_lines)], "rewrites": []})
             continue
         if kind == "fn":
             v["spec"] = v["spec"].rstrip("\n")
